@@ -108,8 +108,14 @@ def reference_kinematics(topology, momenta: dict[int, np.ndarray]):
         pnorm = np.sqrt(np.sum(p_des[:, 1:] ** 2, axis=1))
         with np.errstate(divide="ignore", invalid="ignore"):
             cond = gamma_chain * np.maximum(1.0, p_des[:, 0] / pnorm)
+            # rounding of the boosts themselves: gamma = 1/sqrt(1-beta^2) loses eps*gamma^2 (matters in a lab frame)
+            cond2 = gamma_chain**2 * np.maximum(1.0, p_des[:, 0] / pnorm)
+        sib = b if des == a else a
+        phi_s, theta_s = polar(sum(pool[i] for i in attached(topology, sib)))
         info = {
-            "node": node, "designated": des, "named": a, "kind": kind, "cond": cond,
+            "node": node, "designated": des, "named": a, "kind": kind, "cond": cond, "cond2": cond2,
+            # direction of the other child in this frame (the opposite direction only if the parent is at rest)
+            "sibling_unit": unit_vector(phi_s, theta_s),
             "stored_by_tree": library_stores(topology, node),
             # smallest |sin(theta)| of the decaying ancestors in their parents' frames: at 0 the
             # azimuth of the ancestor, and with it this frame's x axis, is undefined
